@@ -312,4 +312,331 @@ theorem matchTail_append {r : Bytes} {m : Nat} {f : Bool} (c : Bytes) (h : match
         · simp only [List.nil_append]; simp only [List.singleton_append] at h3; rw [h3]; simp [lbLen]
         · simp [lbLen]
 
+/-! ### matchDelimAt (boundary_re anchored) -/
+
+/-- `--boundary` -/
+def delim (bnd : Bytes) : Bytes := 45 :: 45 :: bnd
+
+theorem delim_length (bnd : Bytes) : (delim bnd).length = bnd.length + 2 := by simp [delim]
+
+theorem delim_no_nl {bnd : Bytes} (h : BoundaryOk bnd) : hasNl (delim bnd) = false := by
+  unfold BoundaryOk at h
+  simp [delim, hasNl_cons, h, dash_not_nl]
+
+theorem matchDelimAt_iff {bnd s : Bytes} {n : Nat} {f : Bool} :
+    matchDelimAt bnd false s = some (n, f) ↔
+      ∃ r m, 0 < lbLen s ∧ s.drop (lbLen s) = delim bnd ++ r ∧ matchTail r = some (m, f) ∧
+        n = lbLen s + (bnd.length + 2) + m := by
+  unfold matchDelimAt
+  constructor
+  · intro h
+    simp only [Bool.not_false, Bool.true_and] at h
+    split at h
+    · simp at h
+    · rename_i hl
+      split at h
+      · rename_i hp
+        rw [List.isPrefixOf_iff_prefix] at hp
+        rcases hp with ⟨r, hr⟩
+        have hd : (s.drop (lbLen s)).drop (bnd.length + 2) = r := by
+          rw [← hr]; simp
+        rw [hd] at h
+        cases hm : matchTail r with
+        | none => rw [hm] at h; simp at h
+        | some v =>
+          rw [hm] at h
+          rcases v with ⟨m, f'⟩
+          simp at h
+          refine ⟨r, m, ?_, ?_, ?_, ?_⟩
+          · simp at hl; omega
+          · rw [← hr]; rfl
+          · exact h.2 ▸ hm
+          · omega
+      · simp at h
+  · rintro ⟨r, m, hl, hd, hm, rfl⟩
+    simp only [Bool.not_false, Bool.true_and]
+    have hl' : (lbLen s == 0) = false := by simp; omega
+    rw [hl']
+    simp only [Bool.false_eq_true, if_false]
+    have hp : (45 :: 45 :: bnd).isPrefixOf (s.drop (lbLen s)) = true := by
+      rw [hd, List.isPrefixOf_iff_prefix]; exact List.prefix_append _ _
+    rw [hp]
+    simp only [if_true]
+    have hd2 : (s.drop (lbLen s)).drop (bnd.length + 2) = r := by
+      rw [hd]; simp [delim]
+    rw [hd2, hm]
+
+theorem matchDelimAt_not_nl {bnd : Bytes} {a : UInt8} {t : Bytes} (h : isNl a = false) :
+    matchDelimAt bnd false (a :: t) = none := by
+  simp [matchDelimAt, lbLen_cons_not_nl h]
+
+theorem matchDelimAt_nil {bnd : Bytes} : matchDelimAt bnd false [] = none := by
+  simp [matchDelimAt, lbLen]
+
+/-- appending input keeps an anchored match and its kind -/
+theorem matchDelimAt_append {bnd s : Bytes} {n : Nat} {f : Bool} (c : Bytes)
+    (h : matchDelimAt bnd false s = some (n, f)) :
+    ∃ n', matchDelimAt bnd false (s ++ c) = some (n', f) ∧
+      (f = false → n' = n ∨ (n' = n + 1 ∧ s.length = n ∧ ∃ c', c = 10 :: c')) := by
+  rcases matchDelimAt_iff.1 h with ⟨r, m, hl, hd, hm, rfl⟩
+  rcases matchTail_append c hm with ⟨m', hm', hrel⟩
+  have hlen : s.length = lbLen s + (bnd.length + 2) + r.length := by
+    have := congrArg List.length hd
+    simp [delim] at this
+    have := lbLen_le_length s
+    omega
+  have h2 : 2 ≤ s.length := by omega
+  have hlb : lbLen (s ++ c) = lbLen s := lbLen_append_of_two_le c h2
+  refine ⟨lbLen s + (bnd.length + 2) + m', ?_, ?_⟩
+  · apply matchDelimAt_iff.2
+    refine ⟨r ++ c, m', by omega, ?_, hm', by rw [hlb]⟩
+    rw [hlb, List.drop_append_of_le_length (lbLen_le_length s), hd]; simp
+  · intro hf
+    rcases hrel hf with h1 | ⟨h1, h2, h3⟩
+    · left; omega
+    · right; exact ⟨by omega, by omega, h3⟩
+
+theorem split_first_nl {s : Bytes} (h : hasNl s = true) :
+    ∃ u a v, s = u ++ a :: v ∧ hasNl u = false ∧ isNl a = true := by
+  induction s with
+  | nil => simp at h
+  | cons x s ih =>
+    cases hx : isNl x with
+    | true => exact ⟨[], x, s, rfl, rfl, hx⟩
+    | false =>
+      rw [hasNl_cons, hx] at h
+      simp at h
+      rcases ih h with ⟨u, a, v, rfl, hu, ha⟩
+      exact ⟨x :: u, a, v, rfl, by simp [hasNl_cons, hx, hu], ha⟩
+
+/-- if the text after the leading line break already contains a line break, an anchored match of
+the extended input is an anchored match of the input -/
+theorem matchDelimAt_cut_nl {bnd s c : Bytes} {n : Nat} {f : Bool} (hb : BoundaryOk bnd)
+    (hnl : hasNl (s.drop (lbLen s)) = true)
+    (h : matchDelimAt bnd false (s ++ c) = some (n, f)) :
+    ∃ n', matchDelimAt bnd false s = some (n', f) := by
+  have hne : s.drop (lbLen s) ≠ [] := by intro h0; rw [h0] at hnl; simp at hnl
+  have hlt : lbLen s < s.length := by
+    apply Nat.lt_of_not_le; intro hh
+    exact hne (List.drop_eq_nil_of_le hh)
+  have h2 : 2 ≤ s.length := by
+    rcases Nat.eq_zero_or_pos (lbLen s) with h0 | h0
+    · -- no leading line break at all: no match
+      exfalso
+      cases s with
+      | nil => simp at hlt
+      | cons a t =>
+        cases ha : isNl a with
+        | true => have := lbLen_pos_of_nl (t := t) ha; omega
+        | false =>
+          rw [List.cons_append, matchDelimAt_not_nl ha] at h; simp at h
+    · omega
+  have hlb : lbLen (s ++ c) = lbLen s := lbLen_append_of_two_le c h2
+  rcases matchDelimAt_iff.1 h with ⟨r, m, hl, hd, hm, rfl⟩
+  rw [hlb] at hd hl
+  rw [List.drop_append_of_le_length (lbLen_le_length s)] at hd
+  rcases split_first_nl hnl with ⟨u, a, v, hs', hu, ha⟩
+  rw [hs', List.append_assoc, List.cons_append] at hd
+  have hp : (delim bnd).isPrefixOf (u ++ a :: (v ++ c)) = true := by
+    rw [hd, List.isPrefixOf_iff_prefix]; exact List.prefix_append _ _
+  rw [isPrefixOf_append_nl u (v ++ c) (delim_no_nl hb) ha, List.isPrefixOf_iff_prefix] at hp
+  rcases hp with ⟨u', rfl⟩
+  rw [List.append_assoc] at hd
+  have hr : r = u' ++ a :: (v ++ c) := (List.append_cancel_left hd).symm
+  rw [hr] at hm
+  have hu' : hasNl u' = false := by
+    rw [hasNl_append] at hu; simp at hu; exact hu.2
+  rcases matchTail_append_nl v hu' ha hm with ⟨m', hm'⟩
+  refine ⟨lbLen s + (bnd.length + 2) + m', matchDelimAt_iff.2 ⟨u' ++ a :: v, m', hl, ?_, hm', rfl⟩⟩
+  rw [hs']; simp
+
+theorem matchDelimAt_crlf_of_lf {bnd r : Bytes} {n : Nat} {f : Bool}
+    (h : matchDelimAt bnd false (10 :: r) = some (n, f)) :
+    matchDelimAt bnd false (13 :: 10 :: r) = some (n + 1, f) := by
+  rcases matchDelimAt_iff.1 h with ⟨r', m, _, hd, hm, rfl⟩
+  rw [lbLen_lf] at hd ⊢
+  apply matchDelimAt_iff.2
+  refine ⟨r', m, by rw [lbLen_crlf]; omega, ?_, hm, by rw [lbLen_crlf]; omega⟩
+  rw [lbLen_crlf]; simpa using hd
+
+/-! ### substring search -/
+
+theorem containsSub_cons {p : Bytes} {a : UInt8} {t : Bytes} (h : containsSub p t = true) :
+    containsSub p (a :: t) = true := by
+  simp [containsSub, h]
+
+theorem containsSub_append_left {p : Bytes} (x : Bytes) {t : Bytes} (h : containsSub p t = true) :
+    containsSub p (x ++ t) = true := by
+  induction x with
+  | nil => simpa using h
+  | cons a x ih => exact containsSub_cons ih
+
+theorem containsSub_of_prefix {p t : Bytes} (h : p.isPrefixOf t = true) : containsSub p t = true := by
+  cases t with
+  | nil =>
+    cases p with
+    | nil => rfl
+    | cons a p => simp [List.isPrefixOf] at h
+  | cons a t => simp [containsSub, h]
+
+theorem containsSub_infix (x p y : Bytes) : containsSub p (x ++ (p ++ y)) = true :=
+  containsSub_append_left x (containsSub_of_prefix (by
+    rw [List.isPrefixOf_iff_prefix]; exact List.prefix_append _ _))
+
+theorem containsSub_of_matchDelimAt {bnd s : Bytes} {n : Nat} {f : Bool}
+    (h : matchDelimAt bnd false s = some (n, f)) : containsSub (delim bnd) s = true := by
+  rcases matchDelimAt_iff.1 h with ⟨r, m, _, hd, _, _⟩
+  have : s = s.take (lbLen s) ++ (delim bnd ++ r) := by rw [← hd]; simp
+  rw [this]; exact containsSub_infix _ _ _
+
+/-! ### searchDelim -/
+
+/-- move a search result `k` bytes to the right -/
+def shift (k : Nat) : Option (Nat × Nat × Bool) → Option (Nat × Nat × Bool)
+  | some (s, e, f) => some (s + k, e + k, f)
+  | none => none
+
+@[simp] theorem shift_none (k : Nat) : shift k none = none := rfl
+@[simp] theorem shift_some (k s e : Nat) (f : Bool) : shift k (some (s, e, f)) = some (s + k, e + k, f) := rfl
+@[simp] theorem shift_zero (r : Option (Nat × Nat × Bool)) : shift 0 r = r := by
+  cases r with
+  | none => rfl
+  | some v => rcases v with ⟨s, e, f⟩; rfl
+
+theorem shift_shift (j k : Nat) (r : Option (Nat × Nat × Bool)) : shift j (shift k r) = shift (k + j) r := by
+  cases r with
+  | none => rfl
+  | some v => rcases v with ⟨s, e, f⟩; simp [shift, Nat.add_assoc]
+
+theorem shift_eq_none {k : Nat} {r : Option (Nat × Nat × Bool)} : shift k r = none ↔ r = none := by
+  cases r with
+  | none => simp
+  | some v => rcases v with ⟨s, e, f⟩; simp [shift]
+
+theorem searchDelim_cons_none {bnd : Bytes} {a : UInt8} {t : Bytes}
+    (h : matchDelimAt bnd false (a :: t) = none) :
+    searchDelim bnd false (a :: t) = shift 1 (searchDelim bnd false t) := by
+  simp only [searchDelim, h]
+  cases searchDelim bnd false t with
+  | none => rfl
+  | some v => rcases v with ⟨s, e, f⟩; rfl
+
+theorem searchDelim_cons_some {bnd : Bytes} {a : UInt8} {t : Bytes} {n : Nat} {f : Bool}
+    (h : matchDelimAt bnd false (a :: t) = some (n, f)) :
+    searchDelim bnd false (a :: t) = some (0, n, f) := by
+  simp only [searchDelim, h]
+
+theorem searchDelim_cons_eq_none {bnd : Bytes} {a : UInt8} {t : Bytes} :
+    searchDelim bnd false (a :: t) = none ↔
+      matchDelimAt bnd false (a :: t) = none ∧ searchDelim bnd false t = none := by
+  cases hm : matchDelimAt bnd false (a :: t) with
+  | none => rw [searchDelim_cons_none hm, shift_eq_none]; simp
+  | some v => rcases v with ⟨n, f⟩; rw [searchDelim_cons_some hm]; simp
+
+theorem searchDelim_append_no_nl {bnd : Bytes} (b c : Bytes) (h : hasNl b = false) :
+    searchDelim bnd false (b ++ c) = shift b.length (searchDelim bnd false c) := by
+  induction b with
+  | nil => simp
+  | cons a b ih =>
+    rw [hasNl_cons] at h; simp at h
+    rw [List.cons_append, searchDelim_cons_none (matchDelimAt_not_nl h.1), ih h.2, shift_shift]
+    simp
+
+theorem searchDelim_some_hasNl {bnd s : Bytes} {r : Nat × Nat × Bool}
+    (h : searchDelim bnd false s = some r) : hasNl s = true := by
+  cases hn : hasNl s with
+  | true => rfl
+  | false =>
+    have := searchDelim_append_no_nl (bnd := bnd) s [] hn
+    simp [searchDelim] at this
+    rw [this] at h; simp at h
+
+theorem searchDelim_some_contains {bnd s : Bytes} {r : Nat × Nat × Bool}
+    (h : searchDelim bnd false s = some r) : containsSub (delim bnd) s = true := by
+  induction s generalizing r with
+  | nil => simp [searchDelim] at h
+  | cons a t ih =>
+    cases hm : matchDelimAt bnd false (a :: t) with
+    | some v => rcases v with ⟨n, f⟩; exact containsSub_of_matchDelimAt hm
+    | none =>
+      rw [searchDelim_cons_none hm] at h
+      cases ht : searchDelim bnd false t with
+      | none => rw [ht] at h; simp at h
+      | some v => exact containsSub_cons (ih ht)
+
+/-! ### last_newline -/
+
+theorem lastNewline_cons_crlf {a : UInt8} {t : Bytes} (h1 : hasNl t = true) (h2 : isLastCrlf a t = true) :
+    lastNewline (a :: t) = 0 := by simp [lastNewline, h1, h2]
+
+theorem lastNewline_cons_more {a : UInt8} {t : Bytes} (h1 : hasNl t = true) (h2 : isLastCrlf a t = false) :
+    lastNewline (a :: t) = 1 + lastNewline t := by simp [lastNewline, h1, h2]
+
+theorem lastNewline_cons_nl {a : UInt8} {t : Bytes} (h1 : hasNl t = false) (h2 : isNl a = true) :
+    lastNewline (a :: t) = 0 := by simp [lastNewline, h1, h2]
+
+theorem lastNewline_cons_none {a : UInt8} {t : Bytes} (h1 : hasNl t = false) (h2 : isNl a = false) :
+    lastNewline (a :: t) = 1 + t.length := by simp [lastNewline, h1, h2]
+
+theorem isLastCrlf_iff {a : UInt8} {t : Bytes} :
+    isLastCrlf a t = true ↔ a = 13 ∧ ∃ t2, t = 10 :: t2 ∧ hasNl t2 = false := by
+  cases t with
+  | nil => simp [isLastCrlf]
+  | cons b t2 => simp [isLastCrlf, and_assoc]
+
+theorem lastNewline_le (b : Bytes) : lastNewline b ≤ b.length := by
+  induction b with
+  | nil => simp [lastNewline]
+  | cons a t ih =>
+    cases h1 : hasNl t with
+    | true =>
+      cases h2 : isLastCrlf a t with
+      | true => rw [lastNewline_cons_crlf h1 h2]; omega
+      | false => rw [lastNewline_cons_more h1 h2]; simp; omega
+    | false =>
+      cases h2 : isNl a with
+      | true => rw [lastNewline_cons_nl h1 h2]; omega
+      | false => rw [lastNewline_cons_none h1 h2]; simp; omega
+
+/-- what is held back starts with a line break and has no other line break -/
+theorem lastNewline_tail (b : Bytes) :
+    b.drop (lastNewline b) = [] ∨
+      ∃ a r, b.drop (lastNewline b) = a :: r ∧ isNl a = true ∧
+        hasNl ((a :: r).drop (lbLen (a :: r))) = false := by
+  induction b with
+  | nil => left; rfl
+  | cons a t ih =>
+    cases h1 : hasNl t with
+    | true =>
+      cases h2 : isLastCrlf a t with
+      | true =>
+        rw [lastNewline_cons_crlf h1 h2]
+        rcases isLastCrlf_iff.1 h2 with ⟨rfl, t2, rfl, ht2⟩
+        right
+        exact ⟨13, 10 :: t2, rfl, by decide, by simp [lbLen_crlf, ht2]⟩
+      | false =>
+        rw [lastNewline_cons_more h1 h2]
+        have : (a :: t).drop (1 + lastNewline t) = t.drop (lastNewline t) := by
+          rw [Nat.add_comm]; rfl
+        rw [this]; exact ih
+    | false =>
+      cases h2 : isNl a with
+      | true =>
+        rw [lastNewline_cons_nl h1 h2]
+        right
+        refine ⟨a, t, rfl, h2, ?_⟩
+        rcases isNl_iff.1 h2 with h | h <;> subst h
+        · simp [lbLen_lf, h1]
+        · cases t with
+          | nil => simp [lbLen_cr_nil]
+          | cons b t2 =>
+            have hb' : b ≠ 10 := by
+              intro h; subst h; rw [hasNl_cons] at h1; simp [isNl] at h1
+            rw [lbLen_cr_not_lf t2 hb']; simpa using h1
+      | false =>
+        rw [lastNewline_cons_none h1 h2]
+        left
+        have : 1 + t.length = (a :: t).length := by simp; omega
+        rw [this]; simp
+
 end Wz.Multipart
